@@ -103,7 +103,8 @@ def obligations(tier):
     if quick:
         combos = [(0, 1), (0, 2), (0, 3), (1, 1), (1, 2), (2, 1)]
     else:
-        combos = [(d, k) for d in range(0, 4) for k in range(1, 5) if d + k <= 6]
+        # sized so that one obligation stays below ~25 000 histories (20^(k-1) * 16^d with the first statement fixed)
+        combos = [(0, 1), (0, 2), (0, 3), (0, 4), (1, 1), (1, 2), (1, 3), (2, 1), (2, 2), (3, 1)]
     for d, k in combos:
         for first in range(0, 9):
             obs.append(_script_ob(d, k, first, names, T))
@@ -136,7 +137,7 @@ def run(tier, only=''):
                      'model exposes at that point.'),
         bounds={'part A': 'sequences of <= %d API operations from a fresh state' % (4 if tier == 'quick' else 5),
                 'part B': ('START + (recipe prefix, free statements) in {(0,1),(0,2),(0,3),(1,1),(1,2),(2,1)}' if tier == 'quick' else
-                           'START + recipe prefix of d <= 3 savepoints + k <= 4 free statements, d + k <= 6') +
+                           'START + (recipe prefix d, free statements k) in {(0,1..4),(1,1..3),(2,1..2),(3,1)}') +
                           ' (optional alias/config/DDL change before each prefix savepoint; backend-failure flags on free statements)',
                 'savepoint names': 3, 'id counter start': 1000},
         stubs=['dbstate.time (monotonic_ns returns the harness-chosen symbolic counter start)',
